@@ -95,9 +95,12 @@ def main():
                                    'got': shown})
             digest.update(('%s|%d|%s|%s\n' % (label, t, data.hex(),
                                               shown)).encode())
-            if label in ('naive', 'aware-fixed0', 'struct_time'):
+            if label in ('naive', 'aware-fixed0', 'struct_time') or \
+                    label.startswith('wall-'):
                 # the same value as a message property and inside a method
-                # argument table, through the frame-level API
+                # argument table, through the frame-level API (the two folds
+                # of one wall-clock time are equal-but-distinct values that
+                # follow each other here)
                 n += 1
                 try:
                     props = commands.Basic.Properties(timestamp=value)
